@@ -65,8 +65,8 @@ M6 = [
     'directive @tag(n: Int = 3, s: String = "x", o: Inp = {x: 1}, l: [Int!]) on FIELD_DEFINITION | OBJECT | FIELD | ENUM_VALUE | ARGUMENT_DEFINITION | INPUT_FIELD_DEFINITION | QUERY | MUTATION | SUBSCRIPTION | FRAGMENT_DEFINITION | FRAGMENT_SPREAD | INLINE_FRAGMENT | SCHEMA | SCALAR | INTERFACE | UNION | ENUM | INPUT_OBJECT',
     '"""a doc"""\ndirective @plain on FIELD',
     "input Inp { x: Int }",
-    'enum Color { RED @deprecated(reason: "no red") GREEN @deprecated BLUE }',
-    'type Query { old: Int @deprecated(reason: "use new") older: Int @deprecated new: Int hidden: Int @nonIntrospectable col: Color t(a: Int @tag): Int @tag(n: 1) }',
+    'enum Color { RED @deprecated(reason: "no red") GREEN @deprecated BLUE CYAN @deprecated(reason: "") PINK @deprecated(reason: null) }',
+    'type Query { old: Int @deprecated(reason: "use new") older: Int @deprecated blank: Int @deprecated(reason: "") nulled: Int @deprecated(reason: null) new: Int hidden: Int @nonIntrospectable col: Color t(a: Int @tag): Int @tag(n: 1) }',
 ]
 M7 = [
     "type Blob implements Shape { area: Float }",
